@@ -80,6 +80,17 @@ pub fn check_hash(h: &RawH, st: &mut Stats) -> Result<(), String> {
     let d = must("LongDualFuzzyHash::from_raw_form", || LongDualFuzzyHash::from_raw_form(&raw))?;
     ensure_eq!(content(d.as_normalized()), exp, "LongDualFuzzyHash::from_raw_form().as_normalized() [{}]", h.text());
     ensure!(must("full_eq", || d.as_normalized().full_eq(&r[0].1))?, "dual as_normalized() not full_eq to normalize() [{}]", h.text());
+    // ... and into a dual object that held another hash before
+    let mut used = must("LongDualFuzzyHash::from_raw_form", || {
+        LongDualFuzzyHash::from_raw_form(&ssdeep::LongRawFuzzyHash::new_from_internals_near_raw(
+            7,
+            &[3, 3, 3, 3, 3, 3, 3, 3, 9, 9, 9, 9, 9, 1, 2, 3, 4, 5, 6, 7, 8, 9, 10, 11, 12, 13, 14, 15, 16, 17, 18, 19, 20, 21, 22, 23, 24, 25, 26, 27, 28, 29, 30, 31, 32, 33, 34, 35, 36, 37, 38, 39, 40, 41, 42, 43, 44, 45, 46, 47, 48, 49, 50, 51],
+            &[5, 5, 5, 5, 5, 5, 6, 6, 6, 6, 6, 6, 7, 7, 7, 7, 7, 7, 8, 8, 8, 8, 8, 8, 9, 9, 9, 9, 9, 9, 1, 1, 1, 1, 1, 1, 2, 2, 2, 2, 2, 2, 3, 3, 3, 3, 3, 3, 4, 4, 4, 4, 4, 4, 5, 5, 5, 5, 5, 5, 6, 6, 6, 6],
+        ))
+    })?;
+    must("init_from_raw_form", || used.init_from_raw_form(&raw))?;
+    ensure!(must("is_valid", || used.as_normalized().is_valid())?, "normalised part of a re-initialised dual hash is invalid [{}]", h.text());
+    ensure!(must("full_eq", || used.as_normalized().full_eq(&r[0].1))?, "normalised part of a re-initialised dual hash is not full_eq to normalize() [{}]", h.text());
     let text = h.text();
     let dp = must("LongDualFuzzyHash::from_str", || text.parse::<LongDualFuzzyHash>())?
         .map_err(|e| format!("LongDualFuzzyHash rejects {:?}: {:?}", text, e))?;
